@@ -3,6 +3,7 @@ package main
 // Shared rule shapes built on E1.
 
 import (
+	"go/ast"
 	"fmt"
 	"go/token"
 	"go/types"
@@ -155,6 +156,9 @@ func walkAll(c *Ctx, rule string, fn *ssa.Function, visit func(p *Path)) bool {
 }
 
 func walkAllOpts(c *Ctx, rule string, fn *ssa.Function, opts PathOpts, visit func(p *Path)) bool {
+	if opts.Inline == nil && !opts.NoInline {
+		opts.Inline = localHelper
+	}
 	n, complete := WalkPaths(fn, opts, func(p *Path) bool { visit(p); return true })
 	if !complete {
 		c.Undecided(rule, FuncName(fn), fmt.Sprintf("path bound exceeded after %d paths", n))
@@ -261,4 +265,65 @@ func boolAfter(p *Path, call ssa.Value, at int) (val, known bool) {
 		}
 	}
 	return false, false
+}
+
+// localHelper is the default inlining policy of the path rules: unexported functions of
+// the same package with a modest body. How a function is cut into such helpers is then
+// invisible to a rule (extract-method / inline-method refactorings do not change what it sees).
+func localHelper(root, callee *ssa.Function) bool {
+	if callee.Pkg == nil || root.Pkg == nil || callee.Pkg != root.Pkg {
+		return false
+	}
+	if callee.Synthetic != "" || callee.Parent() != nil {
+		return false
+	}
+	if ast.IsExported(callee.Name()) {
+		return false
+	}
+	if len(callee.Blocks) > 60 {
+		return false
+	}
+	// error constructors (every path returns a non-nil error) are not logic: their
+	// internal branching only chooses a message
+	if res := callee.Signature.Results(); res.Len() == 1 && isErrorLike(res.At(0).Type()) && alwaysNonNil(callee, 0, 0) {
+		return false
+	}
+	// a helper with many paths of its own (loops over data, long decision chains) multiplies
+	// the caller's paths without being "a few lines moved out"
+	return ownPathCount(callee) <= 12
+}
+
+var ownPathCache = map[*ssa.Function]int{}
+
+func ownPathCount(fn *ssa.Function) int {
+	if n, ok := ownPathCache[fn]; ok {
+		return n
+	}
+	ownPathCache[fn] = 1000 // in progress (recursion): not inlinable
+	// counted with its own helpers inlined, so that nesting multiplies into the budget
+	n, complete := WalkPaths(fn, PathOpts{MaxPaths: 40, Inline: localHelper}, func(*Path) bool { return true })
+	if !complete {
+		n = 1000
+	}
+	ownPathCache[fn] = n
+	return n
+}
+
+// isErrorLike: error, or an interface type that embeds it / declares Error() string.
+func isErrorLike(t types.Type) bool {
+	if isErrorType(t) {
+		return true
+	}
+	it, ok := t.Underlying().(*types.Interface)
+	if !ok {
+		return false
+	}
+	for i := 0; i < it.NumMethods(); i++ {
+		if m := it.Method(i); m.Name() == "Error" {
+			if sig, ok := m.Type().(*types.Signature); ok && sig.Params().Len() == 0 && sig.Results().Len() == 1 {
+				return true
+			}
+		}
+	}
+	return false
 }
